@@ -418,6 +418,207 @@ def f_range_ops():
     r = range(2, 11, 3)
     return list(r), len(r), r[1], 8 in r, list(range(5, 0, -2)), list(reversed(range(3))), range(0, 10)[2:5][1]
 
+import io
+import binascii
+import zlib
+import contextlib
+
+try:
+    _POP = int.bit_count
+except AttributeError:
+    def _POP(x):
+        return bin(x).count('1')
+
+_PA, _PB = (lambda: (3, 4))()
+_PTBL = []
+for _pi in range(4):
+    _PTBL.append(_pi * _pi)
+if len(_PTBL) > 3:
+    _PBIG = True
+else:
+    _PBIG = False
+
+
+class _Late:
+    table = ()
+
+    def run(self, k):
+        return self.table[k](self, k)
+
+    def _a(self, k):
+        return ('a', k)
+
+    def _b(self, k):
+        return ('b', k)
+    DISPATCH = {0: _a, 1: _b}
+    PAIRS = ((int, _a), (str, _b))
+
+
+_Late.table = (_Late._a, _Late._b)
+
+
+def _make(name):
+    def m(self, n):
+        return getattr(self, name)(n) + 1
+    m.__name__ = 'x' + name
+    return m
+
+
+class _Gen:
+    def base(self, n):
+        return n * 2
+    plus = _make('base')
+
+
+_SENT = object()
+
+
+def f_module_control_flow():
+    return _POP(0b1011), _PA, _PB, _PTBL, _PBIG
+
+
+def f_class_tables():
+    o = _Late()
+    return o.run(0), o.run(1), _Late.DISPATCH[1](o, 5), [w(o, 1) for t, w in _Late.PAIRS if isinstance(7, t)]
+
+
+def f_generated_methods():
+    return _Gen().plus(4)
+
+
+def f_sentinel():
+    d = {'a': 1}
+    return d.get('a', _SENT) is _SENT, d.get('b', _SENT) is _SENT, _SENT is _SENT, 5 is not _SENT
+
+
+def f_bytesio():
+    b = io.BytesIO()
+    b.write(b'ab')
+    b.write(bytes([1, 2]))
+    return b.getvalue(), b.tell()
+
+
+def f_slice_assign():
+    a = bytearray(6)
+    a[1:3] = b'xy'
+    a[4:] = b'z'
+    l = [1, 2, 3, 4]
+    l[1:3] = [9]
+    return bytes(a), l
+
+
+def f_struct_iter():
+    return [x for (x,) in struct.iter_unpack('<H', b'\x01\x00\x02\x00')], struct.Struct('>I').unpack(b'\x00\x00\x01\x00')
+
+
+def f_methodcaller():
+    f = operator.methodcaller('upper')
+    g = operator.methodcaller('split', ',')
+    return f('ab'), g('a,b'), operator.index(5), int.bit_length(9), str.upper('q'), bytes.hex(b'\x01')
+
+
+def f_lru_call_form():
+    calls = []
+
+    def sq(x):
+        calls.append(x)
+        return x * x
+    c = functools.lru_cache(maxsize=8)(sq)
+    return c(3), c(3), c(4), len(calls)
+
+
+def f_hashlib_attrs():
+    import hashlib
+    return hashlib.sha256().digest_size, hashlib.sha512(b'x').digest_size, hashlib.sha256().block_size
+
+
+def f_memoryview_more():
+    m = memoryview(b'abcdef')
+    return bytes(m[1:3]), m.nbytes, bytes(m.cast('B')[2:]), len(m), m[0]
+
+
+def f_str_partition():
+    return 'a:b:c'.partition(':'), 'abc'.partition(':'), 'a:b:c'.rpartition(':'), 'x' * 0, b'ab' * 0
+
+
+def f_binascii():
+    return binascii.crc_hqx(b'123456789', 0), zlib.crc32(b'abc'), binascii.hexlify(b'\x01\xff')
+
+
+def f_contextlib():
+    with contextlib.suppress(KeyError):
+        {}['a']
+    return 1
+
+
+def f_int_tofrom():
+    return (300).to_bytes(2, 'big'), int.from_bytes(b'\x01\x2c', 'big'), (5).to_bytes(1, 'little'), (-1).to_bytes(2, 'big', signed=True), int.from_bytes(b'\xff', 'big', signed=True)
+
+
+def f_format_spec():
+    return f'{255:#x}', f'{5:>4}', '{0:03d}'.format(7), '%04x' % 255, f'{3.0:.1f}', format(10, 'b')
+
+
+def f_try_else_finally():
+    out = []
+    for v in (1, 0):
+        try:
+            r = 10 // v
+        except ZeroDivisionError:
+            out.append('zero')
+        else:
+            out.append(r)
+        finally:
+            out.append('f')
+    return out
+
+
+def f_frozen_dataclass_property():
+    @dataclass(frozen=True)
+    class P:
+        w: int
+        t: tuple = field(default=(), repr=False)
+
+        @property
+        def mask(self):
+            return (1 << self.w) - 1
+
+        def __post_init__(self):
+            if self.w < 0:
+                raise ValueError('w')
+    p = P(8, (1, 2))
+    try:
+        P(-1)
+        bad = False
+    except ValueError:
+        bad = True
+    return p.mask, p.t, bad, p == P(8, (1, 2))
+
+
+def f_slots_class_update_chain():
+    class R:
+        __slots__ = ('_m', '_r')
+
+        def __init__(self, m):
+            self._m = m
+            self._r = 0
+
+        def update(self, data):
+            for b in data:
+                self._r = (self._r + b) % self._m
+            return self
+
+        def value(self):
+            return self._r
+    return R(7).update(b'abc').update([1, 2]).value()
+
+
+def f_divmod_table_lookup():
+    t = tuple((n >> 4, n & 15) for n in range(32))
+    q, r = divmod(300, 7)
+    return t[17], q, r, [divmod(x, 8) for x in (7, 8, 9)]
+
+
 def f_str_bits():
     s = bin(0b101101)[2:]
     return s, s.zfill(8), int(s[::-1], 2), s.count('1'), s.rfind('1'), s[:3] + '0' * 2, '{:08b}'.format(5), f'{5:08b}'[-3:], ''.join('1' if c == '0' else '0' for c in s)
